@@ -61,7 +61,13 @@ def extract(repo):
     if not m or len(w) != 1 or w[0].start() < m.start():
         raise ValueError("checkTypes: the `do { unknowncnt = 0; … } while( … );` sweep loop was not found")
     cond = re.sub(r"\s+", "", w[0].group(1))
-    if cond == "unknowncnt>0":
+    loop_body = re.sub(r"\s+", "", ct[m.start():w[0].start()])
+    stall = re.search(r"if\(\(unknowncnt>0\)&&\(unknowncnt==lastunknowncnt\)\)\{DictionaryEntryde2;SCOPEdo_types\(schema,t,de2\)if\(t->search_id==NOTKNOWN\)\{t->search_id=CANPROCESS;\}SCOPEodretval=true;break;\}lastunknowncnt=unknowncnt;$", loop_body)
+    if "lastunknowncnt" in ct and not (stall and cond == "unknowncnt>0" and re.search(r"lastunknowncnt\s*=\s*-1\s*;", ct)):
+        raise ValueError("checkTypes: a `lastunknowncnt` is used but the stall test at the end of the sweep loop does not have the modelled shape")
+    if stall:
+        loop = ".untilSettledOrStalled"
+    elif cond == "unknowncnt>0":
         loop = ".untilSettled"
     else:
         mm = re.fullmatch(r"unknowncnt>0&&\+\+(\w+)<(\w+)", cond)
@@ -92,6 +98,8 @@ def enumLastCase : EnumLastCase := .{last}
 /-- when the sweep loop of `checkTypes` (`do {{ unknowncnt = 0; … }} while( … )`) stops -/
 inductive SweepLoop where
   | untilSettled            -- while( unknowncnt > 0 ): runs until a sweep leaves nothing undecided
+  | untilSettledOrStalled   -- additionally: a sweep that ends with the same positive unknowncnt as the one before marks
+                            -- every type still NOTKNOWN as CANPROCESS and leaves the loop
   | bounded (n : Nat)       -- additionally stops after n sweeps, whatever is still undecided
   deriving DecidableEq, Repr
 
